@@ -395,12 +395,20 @@ type aliasMap struct {
 }
 
 func (am aliasMap) varAliases(k string) (vals []string) {
-	vals = append(vals, k)
-	if as, ok := am.aliases[k]; ok {
-		for val := range as {
-			vals = append(vals, am.varAliases(val)...)
+	// Aliases can form a cycle (`{{ $x := $x }}`), visit every name once.
+	seen := map[string]struct{}{}
+	var walk func(k string)
+	walk = func(k string) {
+		if _, ok := seen[k]; ok {
+			return
+		}
+		seen[k] = struct{}{}
+		vals = append(vals, k)
+		for val := range am.aliases[k] {
+			walk(val)
 		}
 	}
+	walk(k)
 	return vals
 }
 
